@@ -4,6 +4,7 @@
 set -u
 R=${VP_RUN_REPO:?needs vp run --with-repo}
 sed -i "s#=> /repo#=> $R#" harness/go.mod
+export VERIF_REPO=$R
 for suf in "$@"; do
   [ "$suf" = "a" ] && suf=""
   for n in 01 02 03 04 05 06 07 08 09 10 11 12 13 14 15 16 17 18 19 20; do
